@@ -70,7 +70,21 @@ def boundary_files(r):
         ({"Name": "a: b", "": ""}, [({0xC2: b"\x02", 0xC3: b"\x05"}, nz(r, 19) + b"\0", None, True)]),
         ({"x": "y"}, [({0xC3: b"\x02"}, nz(r, 16), None, False), ({}, nz(r, 7) + b"\0\x0a", 8, False),
                       ({0xC2: b"\x02"}, nz(r, 16), 16, True)]),
-        ({}, [({0xC3: b"\x01"}, nz(r, 4), None, False), ({0xC3: b"\x01"}, nz(r, 4), None, False)]),
+    ]
+
+
+def dup_files(r):
+    """the SAME payload stored two and three times (one firmware blob for several hardware ids; identical
+    stored payload MACs): plain, encrypted (identical ciphertext under the zero IV), and mixed with a
+    different component - every byte of every copy is damaged in every run"""
+    p8, p17, e16, e5 = nz(r, 8), nz(r, 15) + b"\0\x30", nz(r, 16), nz(r, 4) + b"\0"
+    return [
+        ({}, [({0xC4: b"\x00\xb6"}, p8, None, False), ({0xC4: b"\x00\xbe"}, p8, None, False)]),
+        ({"Fw": "1100"}, [({0xC1: b"\0", 0xC4: b"\x00\xb6"}, p17, None, False), ({0xC1: b"\0", 0xC4: b"\x00\xbe"}, p17, None, False),
+                          ({0xC1: b"\x02"}, nz(r, 5), None, False), ({0xC4: b"\x01"}, p17, 16, False)]),
+        ({}, [({0xC2: b"\x02", 0xC4: b"\x01"}, e16, None, True), ({0xC2: b"\x02", 0xC4: b"\x02"}, e16, None, True)]),
+        ({}, [({0xC2: b"\x02"}, e5, None, True), ({0xC3: b"\x07"}, nz(r, 3), None, False),
+              ({0xC2: b"\x02", 0xC4: b"\x02"}, e5, 4, True), ({0xC4: b"\x03", 0xC2: b"\x02"}, e5, None, True)]),
     ]
 
 
@@ -327,11 +341,12 @@ def qsplice(base_name, base, t):
 
 def gen_files(ctx, n_random):
     r = ctx.rng
-    files = boundary_files(r) + [random_file(r) for _ in range(n_random)]
+    nb = len(boundary_files(r))
+    files = boundary_files(r) + dup_files(r) + [random_file(r) for _ in range(n_random)]
     out = []
-    for cm, comps in files:
+    for i, (cm, comps) in enumerate(files):
         key = B.rkey(r)
-        out.append((cm, comps, key))
+        out.append((cm, comps, key, nb <= i < nb + 4))
     return out
 
 
@@ -341,7 +356,7 @@ def correspondence(ctx):
     edits_per_file = ctx.budget(400, 100000)
     exprs, descr, defs = [], [], []
     with toycipher.registered():
-        for fi, (cm, comps, key) in enumerate(gen_files(ctx, nfiles)):
+        for fi, (cm, comps, key, dup) in enumerate(gen_files(ctx, nfiles)):
             wr = written(cm, comps, key)
             if wr is None:
                 continue
@@ -354,7 +369,14 @@ def correspondence(ctx):
             pts = list(damages(cm, text, binary, key))
             edits = [p for p in pts if p[0] == "byte"]
             other = [p for p in pts if p[0] != "byte"]
-            if len(edits) > edits_per_file:
+            if dup and ctx.quick():
+                # identical payloads: every byte of every stored copy, a sample of the directory, no text prefixes
+                npay = sum(len(pad16(b)) if e else len(b) for _, b, _, e in comps)
+                pay = [p for p in edits if p[1][0] >= len(binary) - npay]
+                rest_e = [p for p in edits if p[1][0] < len(binary) - npay]
+                edits = pay + r.sample(rest_e, min(120, len(rest_e)))
+                other = [p for p in other if p[0] in ("suffix", "key", "binprefix")]
+            elif len(edits) > edits_per_file:
                 edits = r.sample(edits, edits_per_file)
             if ctx.quick():
                 keyp = [p for p in other if p[0] == "key"]
@@ -408,7 +430,7 @@ def search(ctx):
     nbec2 = ctx.budget(1, 30) * boost
     files = gen_files(ctx, nfiles)
     errs = ctx.dist
-    for cm, comps, key in files:
+    for cm, comps, key, _dup in files:
         wr = written(cm, comps, key)
         if wr is None:
             continue
@@ -431,7 +453,7 @@ def search(ctx):
             if why:
                 ctx.fail("damage-accepted", fail_record("bf3", cm, comps, key, kind, param, t2, k2), "%s %r: %s" % (kind, param, why))
     # BEC2: signature + customer-key auth block + the same body at offset len(header)
-    bfiles = boundary_files(r)[1:4] + [random_file(r) for _ in range(nbec2)]
+    bfiles = boundary_files(r)[1:4] + [dup_files(r)[0], dup_files(r)[3]] + [random_file(r) for _ in range(nbec2)]
     for i, (cm, comps) in enumerate(bfiles):
         key = bytes(r.randrange(256) for _ in range(15)) + bytes([r.choice([0, 1, 255])])
         with_ck = bool(i % 2)
@@ -459,8 +481,9 @@ def search(ctx):
                          "%s %r: %s" % (kind, param, why))
     ctx.extra["partial"] = PARTIAL
     ctx.extra["rule"] = (
-        "authentic files: 7 boundary shapes (empty directory, trailing 0x00 runs, last byte with non-zero high nibble, 16-aligned and "
-        "encrypted payloads, several components, two identical payloads) + random C01-shaped files with binary <= 420 bytes (1-3 components, "
+        "authentic files: 6 boundary shapes (empty directory, trailing 0x00 runs, last byte with non-zero high nibble, 16-aligned and "
+        "encrypted payloads, several components) + 4 files holding the SAME payload two and three times (plain, encrypted, mixed with other "
+        "components; every byte of every copy damaged in every run) + random C01-shaped files with binary <= 420 bytes (1-3 components, "
         "payload lengths {1,2,3,5,15,16,17,31,32,33,40,48} with trailing zero runs, 0-3 tags, declared length variants, 30%% encrypted, "
         "keys {zero, random, zero-tailed}); damage = every byte position x {8 bit flips, 00, FF, +1}, every proper prefix of the binary "
         "(re-printed as text) and of the text (character by character), suffixes %r, every single-bit change of the key (BEC2: of the "
